@@ -244,8 +244,8 @@ def generate(prop, tier, seed, scale=1):
     else:
         yield "exhaustive counted limit 1..4 gens 2..3 len 9", exhaustive("counted", [1, 2, 3, 4], [2, 3], [1], 9)
         yield "exhaustive counted limit 1..4 gens 1..3 lens 1,6 len 7", exhaustive("counted", [1, 2, 3, 4], [1, 2, 3], [1, 6], 7)
-        yield ("exhaustive maxsize limit 8..24 gens 2..3 lens 1..6 len 3",
-               exhaustive("maxsize", list(range(8, 25)), [2, 3], [1, 2, 3, 4, 5, 6], 3))
+        yield ("exhaustive maxsize limit 8..24 gens 2..3 lens 1..6 len 4",
+               exhaustive("maxsize", list(range(8, 25)), [2, 3], [1, 2, 3, 4, 5, 6], 4))
         yield ("exhaustive maxsize limit 8,9,12 gens 2..3 lens 1,3,6 len 6",
                exhaustive("maxsize", [8, 9, 12], [2, 3], [1, 3, 6], 6))
         yield ("exhaustive maxsize limit 8 gens 2..3 lens 1,3,6 len 7",
